@@ -242,7 +242,7 @@ def all_trees(depth, keys):
     return out
 
 
-def gen_value(rng, ty, tier, atoms):
+def gen_value(rng, ty, tier, atoms, depth=None):
     ty = ty.strip()
     if ty == 'Int':
         return rng.choice(INTS)
@@ -260,7 +260,7 @@ def gen_value(rng, ty, tier, atoms):
         n = rng.choice([0, 1, 1, 2, 2, 3, 3, 4] if tier == 'thorough' else [0, 1, 1, 2, 2, 3])
         return tuple(rng.choice(atoms) for _ in range(n))
     if ty == 'Tree':
-        return gen_tree(rng, 3 if tier == 'thorough' else 2, [a for a in atoms if a != '..'][:3])
+        return gen_tree(rng, depth or (3 if tier == 'thorough' else 2), [a for a in atoms if a != '..'][:3])
     if ty.startswith('Seq['):
         n = rng.choice([0, 1, 2, 3])
         return tuple(gen_value(rng, ty[4:-1], tier, atoms) for _ in range(n))
@@ -356,6 +356,21 @@ def evaluate(con, fn, inputs, instance=None, funs=None):
         ev.status = 'post-false'
         ev.clause = 'must raise when ' + con.raises['when']
         return ev
+    # frame of the by-value model: an argument that the contract does not list under `mutates` must not have been
+    # modified in place (this is the run-time counterpart of the ownership / value-semantics assumption of PyVC)
+    for pname, before in old.items():
+        if pname in con.mutates or callable(before):
+            continue
+        try:
+            same = (args[pname] == before)
+            same = bool(same) if not hasattr(same, 'all') else bool(same.all())
+        except Exception:
+            same = True
+        if not same:
+            ev.status = 'post-false'
+            ev.clause = 'argument %s is not modified (it is not listed under mutates)' % pname
+            ev.detail = 'before %r after %r' % (before, args[pname])
+            return ev
     env.update(args)
     env['ret'] = ret
     env['old'] = lambda x: x
@@ -430,7 +445,7 @@ def search(con, instance, n, seed, tier):
     fun_params = [p for p in params if types.get(p, '').startswith('Fun[')]
     for it in range(n):
         try:
-            inputs = {p: gen_value(rng, types[p], tier, atoms) for p in params if p not in fun_params}
+            inputs = {p: gen_value(rng, types[p], tier, atoms, con.gen_depth) for p in params if p not in fun_params}
         except KeyError as e:
             return {'status': 'error', 'reason': 'no type for parameter %s' % e}
         for p in fun_params:
